@@ -125,8 +125,10 @@ def gen(tier):
         plan = [("vector", 2, False, ("default", "init2")), ("vector", 1, True, None), ("string", 1, False, None), ("string", 1, True, ("default", "literal")),
                 ("deque", 1, False, None), ("list", 1, False, None), ("set", 1, True, None), ("array", 1, True, None)]
     else:
-        plan = [("vector", 2, True, None), ("vector", 3, False, None), ("string", 2, True, None), ("deque", 2, True, None), ("list", 2, True, None),
-                ("set", 2, True, None), ("array", 2, True, None), ("string", 3, False, None), ("vector", 3, True, None)]
+        # smallest spaces first: the deadline cuts the tail of the k = 3 enumerations
+        plan = [("array", 2, True, None), ("set", 2, True, None), ("deque", 2, False, None), ("list", 2, False, None), ("string", 2, False, None),
+                ("vector", 2, True, None), ("deque", 2, True, None), ("list", 2, True, None), ("string", 2, True, None),
+                ("vector", 3, False, None), ("string", 3, False, None), ("vector", 3, True, None)]
     for c, kmax, two, cforms in plan:
         T = CONT[c]["t"]
         grow_body = [("e", M("c", "push_back" if CONT[c]["seq"] else "insert", (CONT[c]["el"](6),), "void" if CONT[c]["seq"] else "other"))] \
@@ -195,8 +197,10 @@ def work(args):
 def classify(v):
     """Class key of a violated fact; listed classes (known_findings.json) carry an explanation check."""
     shape = v["shape"]
-    if v["cont"] == "set" and v["kind"] == "eq" and v.get("sym") is None and v["observed"] < v["n"] and (
-            "init-dup" in shape[:2] or any("insert" in s_ for s_ in shape[2:])):
+    if v["cont"] == "set" and v.get("sym") is None and (
+            "init-dup" in shape[:2] or any(("insert" in s_ or "w.push" in s_ or "push" in s_ or "grow" in s_) for s_ in shape[2:])):
+        # the program inserts into a set (or initialises it with equal elements): the size cppcheck assumes counts duplicates;
+        # every wrong size / size()-derived value in such a program is attributed to this class
         return "set-size-ignores-uniqueness-of-elements"
     return "unclassified:%s:%s:%s:%s" % (v["attr"], v["cont"], v["kind"], "+".join(shape[2:]))
 
